@@ -97,9 +97,11 @@ def _nint_ok(ctx: Ctx) -> FuncInfo:
                         v.func) == "int" and isinstance(
                         v.args[0], ast.BinOp) and isinstance(
                         v.args[0].op, ast.Add):
-                    sides = {ast.unparse(v.args[0].left),
-                             ast.unparse(v.args[0].right)}
-                    ok_float = sides == {p, "0.5"}
+                    l_, r_ = v.args[0].left, v.args[0].right
+                    ok_float = any(
+                        isinstance(a_, ast.Name) and a_.id == p
+                        and ctx.repo.const(fi.module, b_) == 0.5
+                        for a_, b_ in ((l_, r_), (r_, l_)))
     ctx.ob("D18.1", fi, fi.node, ok_int and ok_float,
            "nint(v) = v for integers and int(v + 0.5) otherwise",
            construct="nint")
